@@ -2648,9 +2648,9 @@ pub fn property() -> Property {
             "C04_DEV_NOEXCL / C04_DEV_BYTES are development aids for producing shrunk witnesses and must be unset in real runs".into(),
         ],
         parts: vec![
-            Part { name: "roundtrip", run: run_roundtrip, quick: Budget::Random { cases: 6_000, bytes: b }, thorough: Budget::Random { cases: 200_000, bytes: b }, min_nontrivial_pct: health },
-            Part { name: "metamorphic", run: run_meta, quick: Budget::Random { cases: 3_000, bytes: b }, thorough: Budget::Random { cases: 100_000, bytes: b }, min_nontrivial_pct: health },
-            Part { name: "entrypoints", run: run_entry, quick: Budget::Random { cases: 1_500, bytes: b }, thorough: Budget::Random { cases: 50_000, bytes: b }, min_nontrivial_pct: health },
+            Part { name: "roundtrip", run: run_roundtrip, quick: Budget::Random { cases: 20_000, bytes: b }, thorough: Budget::Random { cases: 200_000, bytes: b }, min_nontrivial_pct: health },
+            Part { name: "metamorphic", run: run_meta, quick: Budget::Random { cases: 10_000, bytes: b }, thorough: Budget::Random { cases: 100_000, bytes: b }, min_nontrivial_pct: health },
+            Part { name: "entrypoints", run: run_entry, quick: Budget::Random { cases: 5_000, bytes: b }, thorough: Budget::Random { cases: 50_000, bytes: b }, min_nontrivial_pct: health },
             Part { name: "attrs-exh", run: run_attrs_exh, quick: Budget::Exhaustive { param: 1 }, thorough: Budget::Exhaustive { param: 1 }, min_nontrivial_pct: 0 },
             Part { name: "attrs-exh2", run: run_attrs_exh, quick: Budget::Skip, thorough: Budget::Exhaustive { param: 2 }, min_nontrivial_pct: 0 },
             Part { name: "tree-exh3", run: run_cond_exh, quick: Budget::Exhaustive { param: 3 }, thorough: Budget::Exhaustive { param: 3 }, min_nontrivial_pct: 0 },
